@@ -12,6 +12,7 @@ CONSTANT OpSet = {"Get", "GetActive", "Put", "Upsert", "Remove", "Peek"}
 CONSTANT FreePut = TRUE
 CONSTANT MaxOps = 1
 CONSTANT MaxSteps = 3
+CONSTANT SplitLoad = FALSE
 CONSTANT MaxUpd = 0
 CONSTANT Pool = 5
 CONSTANT SeqPrefix = 0
